@@ -75,7 +75,7 @@ def handle (op : String) (args : List String) : Option String :=
   | "render", name :: args => do
     let ls ← Gen.jobTemplates.lookup name
     let j0 ← parseJob (("-" : String) :: args)
-    let j := { j0 with tmpl := templateText ls }
+    let j := { j0 with tmpl := templateTextK Gen.jobScriptKeys ls }
     let ps := params Gen.shellEscapes j
     let covered := ls.all fun l => shapeOf l != Shape.other
     pure (hexOfBytes j.tmpl ++ " " ++ hexOfBytes (renderScript (valsOf ps) ls) ++ " "
